@@ -5,6 +5,7 @@ import (
 	"bytes"
 	"encoding/json"
 	"fmt"
+	"strconv"
 	"strings"
 	"testing"
 
@@ -32,6 +33,86 @@ type Case struct {
 	Major, Minor, Patch uint64 `json:",omitempty"`
 	Pre, Build          string `json:",omitempty"`
 	Hi, Lo              uint64 `json:",omitempty"`
+	// Parsed: when set, the value is what the package's parser returns for this text handed over as []byte, and the caller's
+	// buffer is the very storage that held the text (re-sliced to its first Keep bytes).
+	Parsed vkit.B `json:"parsed_from,omitempty"`
+	Keep   int    `json:"keep,omitempty"`
+	// Settings: the case runs while every package-level setting that belongs to parsing, marshalling and comparing has an
+	// unusual value (none of them is an input of DefaultFormatter).
+	Settings bool `json:"unusual_settings,omitempty"`
+}
+
+// unusualSettings gives every package-level setting other than the Formatter hooks an unusual value and returns the undo.
+func unusualSettings() func() {
+	a1, a2, a3, a4, a5 := date.MaxInputLength, roman.MaxInputLength, sem.MaxInputLength, size.MaxInputLength, uu.MaxInputLength
+	b1, b2, b3, b4, b5 := size.DefaultRule, size.MaxObjectKeys, size.DisableMarshalTextUnit, size.DisableMarshalJSONStringForm, size.DisableMarshalJSONObjectForm
+	c1, c2 := roman.DefaultFormat, sem.ComparePreRelease
+	date.MaxInputLength, roman.MaxInputLength, sem.MaxInputLength, size.MaxInputLength, uu.MaxInputLength = 1, 1, 1, 1, 1
+	size.DefaultRule, size.MaxObjectKeys = size.RuleDisableUnit|size.RuleDisallowUnknownKeys, 1
+	size.DisableMarshalTextUnit, size.DisableMarshalJSONStringForm, size.DisableMarshalJSONObjectForm = true, true, true
+	roman.DefaultFormat = roman.FormatLowerCase | roman.FormatLong
+	sem.ComparePreRelease = func(a, b string) int { return 0 }
+	return func() {
+		date.MaxInputLength, roman.MaxInputLength, sem.MaxInputLength, size.MaxInputLength, uu.MaxInputLength = a1, a2, a3, a4, a5
+		size.DefaultRule, size.MaxObjectKeys, size.DisableMarshalTextUnit, size.DisableMarshalJSONStringForm, size.DisableMarshalJSONObjectForm = b1, b2, b3, b4, b5
+		roman.DefaultFormat, sem.ComparePreRelease = c1, c2
+	}
+}
+
+// judgeParsed: a value parsed from a caller's byte slice is formatted into that same storage (a program that normalises a text
+// in place does exactly this). The value must be independent of the bytes it was read from.
+func judgeParsed(c Case, w *vkit.W) {
+	text := string(c.Parsed)
+	storage := make([]byte, len(text), len(text)+c.Spare)
+	copy(storage, text)
+	var format func(buf []byte) ([]byte, error)
+	switch c.Pkg {
+	case "date":
+		v, err := date.DefaultParser(storage, 0)
+		if err != nil {
+			return
+		}
+		format = func(buf []byte) ([]byte, error) { return date.DefaultFormatter(buf, v, date.Format(c.Flags)) }
+	case "roman":
+		v, err := roman.DefaultParser(storage, 0)
+		if err != nil {
+			return
+		}
+		format = func(buf []byte) ([]byte, error) { return roman.DefaultFormatter(buf, v, roman.Format(c.Flags)) }
+	case "sem":
+		v, err := sem.DefaultParser(storage, 0)
+		if err != nil {
+			return
+		}
+		format = func(buf []byte) ([]byte, error) { return sem.DefaultFormatter(buf, v, sem.Format(c.Flags)) }
+	case "size":
+		v, err := size.DefaultParser(storage, 0)
+		if err != nil {
+			return
+		}
+		format = func(buf []byte) ([]byte, error) { return size.DefaultFormatter(buf, v, size.Format(c.Flags)) }
+	case "uu":
+		v, err := uu.DefaultParser(storage, 0)
+		if err != nil {
+			return
+		}
+		format = func(buf []byte) ([]byte, error) { return uu.DefaultFormatter(buf, v, uu.Format(c.Flags)) }
+	default:
+		panic("unknown pkg " + c.Pkg)
+	}
+	refOut, err := format(nil)
+	if err != nil {
+		w.Fail(c, "formatter-error", fmt.Sprintf("%s formatter into nil: %v", c.Pkg, err))
+		return
+	}
+	want := text[:c.Keep] + string(refOut)
+	out, err := format(storage[:c.Keep])
+	if err != nil || string(out) != want {
+		w.Fail(c, "not-prefix-plus-formatted", fmt.Sprintf("%s: value parsed from the bytes %q, then formatted (flags %#x) into the same storage re-sliced to [:%d] = %q, %v; want %q", c.Pkg, text, c.Flags, c.Keep, out, err, want))
+	}
+	if again, err := format(nil); err != nil || !bytes.Equal(again, refOut) {
+		w.Fail(c, "value-changed-with-its-input", fmt.Sprintf("%s: value parsed from the bytes %q formats as %q after that storage was written over (before: %q), %v", c.Pkg, text, again, refOut, err))
+	}
 }
 
 func (c Case) call(buf []byte) ([]byte, error) {
@@ -63,6 +144,13 @@ func judge(c Case, w *vkit.W) {
 		if got, want := id.URN(), "urn:uuid:"+id.String(); got != want {
 			w.Fail(c, "urn-rendering", fmt.Sprintf("URN() = %q, want %q", got, want))
 		}
+		return
+	}
+	if c.Settings {
+		defer unusualSettings()()
+	}
+	if c.Parsed != "" {
+		judgeParsed(c, w)
 		return
 	}
 	if w.Flip() {
@@ -242,6 +330,54 @@ func TestCheck(t *testing.T) {
 		})
 	}
 	r.Exhaustive("grid of boundary values x every flag subset (date 2, roman 128, sem 2, size 4, uu 2) x prefix list (every single byte value for the listed flag subsets) x 23 spare capacities")
+
+	r.Phase("parsed: values parsed from a byte slice and formatted into that same storage (every keep length, several spare capacities, every flag word)", func() {
+		texts := map[string][]string{
+			"date":  {"2022-08-07", "20220807", "0001-01-01", "123456789-12-31", "9999-12-31"},
+			"roman": {"MCMXCIV", "mdclxvi", "IIII", "MMMMMMMMMMMMMMMMMMMMCDXLIV", ""},
+			"sem":   {"v1.2.3-alpha+build", "1.2.3-alpha.1+build.5", "10.20.30-rc.1", "1.0.0+21AF26D3----117B344092BD", "v18446744073709551615.0.0-x-y-z.--", "0.0.0"},
+			"size":  {"1 000 kB", "20KiB", "18446744073709551615", "7 EiB", "1_024"},
+			"uu":    {"123e4567-e89b-12d3-a456-426614174000", "urn:uuid:123E4567-E89B-12D3-A456-426614174000", "ffffffff-ffff-ffff-ffff-ffffffffffff"},
+		}
+		for _, pkg := range []string{"date", "roman", "sem", "size", "uu"} {
+			pkg := pkg
+			r.Serial(func(w *vkit.W) {
+				for _, text := range texts[pkg] {
+					for keep := 0; keep <= len(text); keep++ {
+						for _, spare := range []int{0, 1, 8, 64} {
+							for flags := 0; flags < flagCounts[pkg]; flags += 1 + flagCounts[pkg]/8 {
+								c := Case{Pkg: pkg, Parsed: vkit.B(text), Keep: keep, Spare: spare, Flags: flags}
+								if text == "" {
+									continue
+								}
+								judge(c, w)
+								w.EvalRandom(vkit.Hash64("parsed", pkg, text, strconv.Itoa(keep), strconv.Itoa(spare), strconv.Itoa(flags)), true)
+							}
+						}
+					}
+				}
+			})
+		}
+	})
+
+	r.Phase("settings: boundary values x every flag word x 6 prefixes x 4 spare capacities while all parsing / marshalling / comparing settings have unusual values", func() {
+		r.Serial(func(w *vkit.W) {
+			for _, pkg := range []string{"date", "roman", "sem", "size", "uu"} {
+				for _, base := range values(pkg) {
+					for flags := 0; flags < flagCounts[pkg]; flags++ {
+						for _, p := range []string{"", "x", alphabets[pkg], "10 000 KiB&nbsp;", "urn:uuid:", "MIX:"} {
+							for _, sp := range []int{0, 1, 16, 64} {
+								c := base
+								c.Flags, c.Prefix, c.Spare, c.Settings = flags, vkit.B(p), sp, true
+								judge(c, w)
+								w.EvalRandom(vkit.Hash64("settings", pkg, fmt.Sprint(base), strconv.Itoa(flags), p, strconv.Itoa(sp)), nontrivial(c))
+							}
+						}
+					}
+				}
+			}
+		})
+	})
 
 	r.Phase("urn", func() {
 		r.Serial(func(w *vkit.W) {
